@@ -40,6 +40,11 @@ TRUSTED = [
     "property itself requires them (download only when the local copy differs; refuse an update without local state)",
     "RootSourcedStateBackend.get_root without `own` in the scope requests the download unconditionally; skipping an "
     "identical copy is then left to TransferOps.download (C14 skip_when_equal)",
+    "harness/pygen.py (Python AST -> Lean, fails closed) regenerates I2N/Extracted/GenPool.lean from the source of "
+    "SourcedStateBackend.get_source_scope on every run; sourceScope_matches_source proves the hand written sourceScope "
+    "equal to it for all inputs.  Trusted: the translator; the atom table (own_params['nets_gateway'] = Env.gateway, "
+    "source_params['nets_gateway'] = Env.srcGateway, ... own_params['shared_pool'].lstrip(':') = lstripColon sharedPool; "
+    "the reads are total, i.e. the keys exist)",
 ]
 
 SCOPES = ["own", "swarm", "cluster", "shared"]
@@ -209,6 +214,25 @@ def render_extracted(t):
 
 
 def extract(ctx):
+    """Regenerate lean/I2N/Extracted/Pool.lean (literal tables) and lean/I2N/Extracted/GenPool.lean (the control flow of
+    get_source_scope translated by harness/pygen.py).  Both fail closed."""
+    try:
+        _extract_tables(ctx)
+    finally:
+        _extract_gen(ctx)
+
+
+def _extract_gen(ctx):
+    """second tie: the control flow of get_source_scope translated to Lean (raises pygen.Unsupported when the function
+    left the translated subset; run.py records that as a proof problem)"""
+    import pygen
+    if pygen.extract_pool(ctx):
+        ctx.notes.append("I2N/Extracted/GenPool.lean changed: the source of get_source_scope differs from the one the "
+                         "committed file was generated from (sourceScope_matches_source is re-checked)")
+    ctx.extra["regenerated"] = "lean/I2N/Extracted/GenPool.lean (SourcedStateBackend.get_source_scope via harness/pygen.py)"
+
+
+def _extract_tables(ctx):
     """Regenerate lean/I2N/Extracted/Pool.lean.  Fails closed: when a literal is no longer where it was, the proofs
     count as broken for this run (a proof problem can never end in exit 0) and the correspondence still runs against the
     last extracted tables, so that a concrete failing input is looked for."""
